@@ -89,6 +89,9 @@ impl<K: KeyOfSetColumn, C: ConcurrentSet<Element = K::Element> + Default>
             return;
         }
 
+        #[cfg(feature = "verif")]
+        crate::verif::thread_point("imk_after_miss");
+
         let new_set = C::default();
 
         match self.map.entry_sync(key) {
